@@ -11,6 +11,9 @@ def specs_secondq(tier):
     s += [(SQ, "unit_solve_scalar", {"layout": l, "diagonal": True, "timeout_ms": t}) for l in (["boson"], ["fermion", "fermion"], ["boson", "fermion"])]
     s += [(SQ, "unit_solve_scalar", {"layout": ["boson"], "diagonal": False, "timeout_ms": t, "canary": True})]
     s += [(SQ, "unit_solve_sylvester_2nd_quant", {"rows": r, "cols": c, "same_block": sb, "timeout_ms": t}) for r, c, sb in ((1, 1, True), (2, 2, True), (3, 3, True), (2, 3, False), (1, 2, False))]
+    # an identically zero block of H_0 (energies filled in at the first use, sized by the right-hand side): row block / column block, more rows than columns and the reverse
+    s += [(SQ, "unit_solve_sylvester_2nd_quant", {"rows": r, "cols": c, "same_block": False, "zero_block": zb, "timeout_ms": t}) for r, c, zb in ((1, 2, "col"), (3, 1, "row"), (2, 3, "row"), (3, 2, "col"))]
+    s += [(SQ, "unit_solve_sylvester_2nd_quant", {"rows": 2, "cols": 2, "same_block": True, "zero_block": "row", "timeout_ms": t})]
     s += [(SQ, "unit_filter_terms", {"nmodes": a, "nconds": b, "timeout_ms": t}) for a, b in (((1, 1), (2, 2), (3, 1)) if tier == "thorough" else ((1, 1), (2, 2)))]
     s += [(SQ, "unit_apply_mask", {"timeout_ms": t})]
     s += [(SQ, "unit_operator_diag_offdiag", {"variant": v, "timeout_ms": t}) for v in ("dict", "list")]
